@@ -65,6 +65,8 @@ type zzCfg struct {
 	// short interval makes "acked on disk before the incoming link signed"
 	// reachable without a long quiet period.
 	ackInterval time.Duration
+	// bursts: a queue with more than one message may be handed over in one go
+	bursts bool
 }
 
 type zzPay struct {
@@ -79,10 +81,10 @@ type zzPay struct {
 	hasInv    bool
 
 	// results (guarded by sim.mu)
-	done      bool
-	success   bool
-	resErr    string
-	waiting   bool // a waiter goroutine is subscribed
+	done           bool
+	success        bool
+	resErr         string
+	waiting        bool // a waiter goroutine is subscribed
 	resolvedAtStep int
 
 	holdResolved  bool
@@ -91,8 +93,8 @@ type zzPay struct {
 	nudge         bool
 }
 
-func (p *zzPay) sender() int   { return p.route[0] }
-func (p *zzPay) receiver() int { return p.route[len(p.route)-1] }
+func (p *zzPay) sender() int     { return p.route[0] }
+func (p *zzPay) receiver() int   { return p.route[len(p.route)-1] }
 func (p *zzPay) forwarded() bool { return len(p.route) == 3 }
 func (p *zzPay) fee() lnwire.MilliSatoshi {
 	if !p.forwarded() {
@@ -153,16 +155,16 @@ type zzSim struct {
 
 	initHold [3]lnwire.MilliSatoshi
 
-	faults        int
-	firstFaultAt  int
-	crashArmed    bool
-	midCutArmed   bool
-	midCuts       int // cuts that landed inside a write so far
-	midCutConn    int // connection whose Bob-side link was told to stop inside a write (-1: none)
+	faults             int
+	firstFaultAt       int
+	crashArmed         bool
+	midCutArmed        bool
+	midCuts            int // cuts that landed inside a write so far
+	midCutConn         int // connection whose Bob-side link was told to stop inside a write (-1: none)
 	paysDoneAfterFault int
-	stepNo        int
-	windDown      bool
-	bobRebootInflight int
+	stepNo             int
+	windDown           bool
+	bobRebootInflight  int
 }
 
 func (s *zzSim) parkViolation(code, format string, a ...interface{}) {
@@ -221,6 +223,9 @@ func zzDrawCfg(r *simcore.Run) zzCfg {
 	}
 	// (last draw: older replay files end before it and get the default)
 	c.ackInterval = []time.Duration{DefaultAckInterval, 20 * time.Millisecond, DefaultAckInterval, time.Second}[t.CfgDraw(4)]
+	// appended last: burst deliveries (several queued messages handed to a
+	// link before it has handled the first)
+	c.bursts = t.CfgDraw(2) == 1
 	return c
 }
 
@@ -439,32 +444,50 @@ func (s *zzSim) netIdle() bool {
 }
 
 // deliver hands the next message of a queue to the receiving link.
-func (s *zzSim) deliver(conn, dir int) {
+func (s *zzSim) deliver(conn, dir int) { s.deliverN(conn, dir, 1) }
+
+// deliverN hands the next n messages of a queue to the receiving link back to
+// back, as a peer's read loop does with a TCP burst: they sit in the link's
+// mailbox while the link works on the first. A cut inside a write of that
+// work leaves the rest unread in the mailbox, which outlives the link.
+func (s *zzSim) deliverN(conn, dir, n int) {
 	r := s.r
-	s.mu.Lock()
-	c := &s.conns[conn]
-	w := c.q[dir][0]
-	c.q[dir] = c.q[dir][1:]
-	s.mu.Unlock()
 	from, to := zzConnEnds[conn][dir], zzConnEnds[conn][1-dir]
-	zzL(r, "deliver %s>%s %s", zzNames[from], zzNames[to], w.desc)
-	msg, err := lnwire.ReadMessage(bytesReader(w.raw), 0)
-	if err != nil {
-		r.Harness("cannot decode queued message %s: %v", w.desc, err)
+	for i := 0; i < n; i++ {
+		s.mu.Lock()
+		c := &s.conns[conn]
+		if !c.up || len(c.q[dir]) == 0 {
+			s.mu.Unlock()
+			break
+		}
+		w := c.q[dir][0]
+		c.q[dir] = c.q[dir][1:]
+		s.mu.Unlock()
+		zzL(r, "deliver %s>%s %s", zzNames[from], zzNames[to], w.desc)
+		msg, err := lnwire.ReadMessage(bytesReader(w.raw), 0)
+		if err != nil {
+			r.Harness("cannot decode queued message %s: %v", w.desc, err)
+		}
+		if _, ok := msg.(*lnwire.ChannelReady); ok {
+			// funding-manager business, ignored like the fixture does
+			continue
+		}
+		if to == zzB {
+			s.bobReceives(conn, msg)
+		}
+		zl := s.nodes[to].links[conn]
+		if zl == nil {
+			if i == 0 {
+				r.Harness("deliver to %s conn%d without a link", zzNames[to], conn)
+			}
+			break
+		}
+		zl.link.HandleChannelUpdate(msg)
+		r.Add("delivered", 1)
+		if i > 0 {
+			r.Count("probe_delivered_behind_unprocessed_message")
+		}
 	}
-	if _, ok := msg.(*lnwire.ChannelReady); ok {
-		// funding-manager business, ignored like the fixture does
-		return
-	}
-	if to == zzB {
-		s.bobReceives(conn, msg)
-	}
-	zl := s.nodes[to].links[conn]
-	if zl == nil {
-		r.Harness("deliver to %s conn%d without a link", zzNames[to], conn)
-	}
-	zl.link.HandleChannelUpdate(msg)
-	r.Add("delivered", 1)
 	s.quiesce()
 }
 
@@ -617,6 +640,9 @@ func (s *zzSim) step() {
 			if s.conns[c].up && len(s.conns[c].q[d]) > 0 {
 				a, b := zzConnEnds[c][d], zzConnEnds[c][1-d]
 				ops = append(ops, zzOp{14, fmt.Sprintf("deliver:%s>%s", zzNames[a], zzNames[b]), func() { s.deliver(c, d) }})
+				if n := len(s.conns[c].q[d]); n > 1 && s.cfg.bursts {
+					ops = append(ops, zzOp{5, fmt.Sprintf("deliver-burst:%s>%s", zzNames[a], zzNames[b]), func() { s.deliverN(c, d, n) }})
+				}
 			}
 		}
 	}
@@ -650,7 +676,9 @@ func (s *zzSim) step() {
 			}
 		}
 	}
-	ops = append(ops, zzOp{3, "time:short", func() { s.advance([]time.Duration{time.Millisecond, 10 * time.Millisecond, 60 * time.Millisecond}[r.Draw(3)]) }})
+	ops = append(ops, zzOp{3, "time:short", func() {
+		s.advance([]time.Duration{time.Millisecond, 10 * time.Millisecond, 60 * time.Millisecond}[r.Draw(3)])
+	}})
 	if s.netIdle() {
 		ops = append(ops, zzOp{2, "time:medium", func() { s.advance([]time.Duration{time.Second, 16 * time.Second}[r.Draw(2)]) }})
 	}
